@@ -91,3 +91,23 @@ Theorem C02_session_correct_cot :
       run_session pi_of_key (cot_ot g0 g1 Delta E p mal) rnd key scratch c x y = Ok r r g2e e2g.
 Proof. exact session_correct_cot. Qed.
 Print Assumptions C02_session_correct_cot.
+
+(* ... and for Chou-Orlandi over any abelian group with scalar multiplication
+   satisfying the stated laws (the EC group is the instance), any mask
+   derivation, sender scalar and receiver scalar stream. *)
+Theorem C02_session_correct_co :
+  forall (pi_of_key : list N -> N -> N)
+         (G : Type) (gadd : G -> G -> G) (gneg : G -> G) (gzero : G) (smul : N -> G -> G) (Gen : G)
+         (kdf : G -> N -> N) (a : N) (sc : nat -> N)
+         (rnd : nat -> N) (key : list N) (scratch : list wire) (c : circ2) (x y : list bool),
+    (forall P Q R, gadd (gadd P Q) R = gadd P (gadd Q R)) ->
+    (forall P, gadd P gzero = P) ->
+    (forall P, gadd P (gneg P) = gzero) ->
+    (forall a P Q, smul a (gadd P Q) = gadd (smul a P) (smul a Q)) ->
+    (forall a b P, smul a (smul b P) = smul b (smul a P)) ->
+    wf2 c = true -> length x = n0 c -> length y = n1 c ->
+    let r := Codec.split_bits (outs c) (Codec.bits_to_N (eval_plain (cc c) (x ++ y))) in
+    exists g2e e2g,
+      run_session pi_of_key (co_ot G gadd gneg smul Gen kdf a sc) rnd key scratch c x y = Ok r r g2e e2g.
+Proof. exact session_correct_co. Qed.
+Print Assumptions C02_session_correct_co.
